@@ -197,3 +197,7 @@ func Run(h func()) (outcome string) {
 // Encoded returns the value most recently handed to encoding/json's Encoder
 // (engine only; nil natively, where the real encoder runs).
 func Encoded() any { return nil }
+
+// NoSummaries runs f with the engine's callee summaries disabled (the real SSA
+// bodies are executed); natively it just runs f.
+func NoSummaries(f func()) { f() }
